@@ -173,4 +173,42 @@ UncompressedSegwit(t, src, d, comp) == /\ Segwit(t)
 AltTypes(t, e, src) ==
     IF src = "hash" THEN {u \in AddrTypes : EncOf(u) = e /\ HashLen(u) = HashLen(t)}      \* a bare hash has no family
     ELSE {u \in (IF t \in KeyTypes THEN KeyTypes ELSE ScriptTypes) : EncOf(u) = e}
+
+\* ------------------------------------------------------------------ call histories on one key object
+\* A key object is asked several times; calls == sequence of
+\*   [op |-> "address" | "address_uncompressed" | "network_change" | "wif" | "public" | "hash160",
+\*    t, e |-> script type / encoding given ("" = not given), c |-> "T" | "F" | "" (compressed argument),
+\*    pfx |-> prefix given (<<>> = not given: the prefix of the key's network), net |-> new network]
+\* The answer to the LAST call depends on the key, its CURRENT network and the arguments of that call only:
+\*  - network: the one of the last network_change, else the one the key was created with; never an earlier one
+\*  - prefix: the one given in the last call, else the current network's; never one given earlier
+\*  - an argument that is not given (script type, encoding, compressed) may resolve to the key object's default or
+\*    to a value the caller chose earlier on this object (the library documents such sticky defaults); it must
+\*    still be a standard address of this key
+HistNet(net0, calls) ==
+    LET S == {i \in 1..Len(calls) : calls[i].op = "network_change"} IN
+    IF S = {} THEN net0 ELSE calls[CHOOSE i \in S : \A j \in S : j <= i].net
+DefaultKeyTypes == {"p2pkh", "p2wpkh", "p2sh_p2wpkh"}
+\* obj = "key": plain key object (no own script type); obj = "hdkey": BIP32 key with witness type wt
+HistPairs(obj, wt, last) ==
+    IF last.t # "" /\ last.e # "" THEN {<<last.t, last.e>>}
+    ELSE IF obj = "hdkey" /\ last.t = "" /\ last.e = "" THEN {<<WitnessTypeAddr(wt).t, WitnessTypeAddr(wt).e>>}
+    ELSE {q \in DefaultKeyTypes \X (IF last.e # "" THEN {last.e} ELSE Encodings) : Compatible(q[1], q[2])}
+HistComp(comp0, calls) ==
+    LET last == calls[Len(calls)] IN
+    IF last.op = "address_uncompressed" THEN {FALSE}
+    ELSE IF last.c # "" THEN {last.c = "T"}
+    ELSE {comp0} \cup {calls[i].c = "T" : i \in {j \in 1..(Len(calls) - 1) : calls[j].op = "address" /\ calls[j].c # ""}}
+                 \cup {FALSE : i \in {j \in 1..(Len(calls) - 1) : calls[j].op = "address_uncompressed"}}
+\* the candidates <<script type, compressed>> of the last call
+HistCandidates(obj, wt, comp0, calls) ==
+    {<<q[1], c>> : q \in HistPairs(obj, wt, calls[Len(calls)]), c \in HistComp(comp0, calls)}
+
+\* address string with a caller-supplied prefix (version bytes for Base58Check, human readable part for Bech32)
+AddrStrP(O(_, _), net, dest, pfx) ==
+    IF pfx = <<>> THEN AddrStr(O, net, dest)
+    ELSE IF dest.q # {} THEN Unknown(dest.q)
+    ELSE IF dest.v.k = "wit" THEN Ret(SegwitEncode(pfx, dest.v.v, dest.v.p))
+    ELSE Map1(LAMBDA c : B58Encode(pfx \o dest.v.p \o Take(c, 4)), Ask(O, "sha256d", Ret(pfx \o dest.v.p)))
+StdAddrP(O(_, _), net, t, src, d, comp, pfx) == AddrStrP(O, net, DestOf(O, t, src, DataOf(O, src, d, comp)), pfx)
 =============================================================================
